@@ -19,6 +19,9 @@ def domain_of(prop):
     if prop in ("C01", "C02", "C03", "C05", "C09", "C17"):
         from . import world
         return world
+    if prop in ("C04", "C08", "C12", "C13"):
+        from . import store
+        return store
     raise C.ToolError("no check registered for " + prop)
 
 
